@@ -1350,6 +1350,12 @@ class Run:
                             else "heap CCtx ownership history: crash, bytes left behind after ZSTD_freeCCtx or a foreign block freed: %s" % a[-160:])
             else:
                 ctx.cov["traces_validated_against_impl"] += 1
+                # tie of theorems cctx_sizeof_exact / mt_sizeof_exact on the public API: once the workers are idle the reported size
+                # EQUALS the bytes held (an over-report is no violation of the property: reported as a correspondence failure only;
+                # sanitizer builds over-report a CDict by its structure, see tie_round3)
+                neq = [t for t in a.split() if t.count("/") == 2 and t.split("/")[1] != t.split("/")[2]]
+                if neq and self.variant == "o1":
+                    self.disagreements.append(("cctx-history", ln, "sizeof != live: " + " ".join(neq[:3]), "ZSTD_sizeof_CCtx == live bytes (theorem cctx_sizeof_exact)"))
         core.log("C14 round-2 ties: %d ownership histories, %d static-dict, %d legacy, %d fromFrame, %d cdict-level, %d sizeof cases; %d disagreements so far"
                  % (len(hl), len(sl), len(ll), len(dl), len(cl_), len(zl), len(self.disagreements)))
 
